@@ -49,53 +49,57 @@ const ALIASES: &[&str] = &[
     "BitAnd :: bitand , BitOr :: bitor , BitXor :: bitxor , Shl :: shl , Shr :: shr ,",
 ];
 
-/// Local callee -> fragment its body must contain (the operation modelled in Prims.v).  A local
-/// callee that is not listed is still emitted; the Coq `coverage` theorem then fails for it.
-const CORE: &[(&str, &str)] = &[
-    ("array::len", "array . len () as VmInt"),
-    ("array::index", "match array . get (index) { Some (value) => RuntimeResult :: Return (value) , None => RuntimeResult :: Panic"),
-    ("array::slice", ". skip (self . start) . take (self . end - self . start)"),
-    ("array::append", "self . lhs . iter () . chain (self . rhs . iter ())"),
-    ("int::rem", "RuntimeResult :: Return (dividend % divisor)"),
-    ("int::rem_euclid", "RuntimeResult :: Return (dividend . rem_euclid (divisor))"),
-    ("int::wrapping_rem", "RuntimeResult :: Return (dividend . wrapping_rem (divisor))"),
-    ("int::wrapping_rem_euclid", "RuntimeResult :: Return (dividend . wrapping_rem_euclid (divisor))"),
-    ("int::overflowing_rem", "RuntimeResult :: Return (dividend . overflowing_rem (divisor))"),
-    ("int::overflowing_rem_euclid", "RuntimeResult :: Return (dividend . overflowing_rem_euclid (divisor))"),
-    ("string::append", ". chain (self . rhs . as_bytes ())"),
-    ("string::append_char", "append (lhs , rhs . encode_utf8 (& mut [0 ; 4]))"),
-    ("string::from_char", "append_char (WithVM { vm : c . vm , value : \"\" , } , c . value ,)"),
-    ("string::split_at", "RuntimeResult :: Return (s . split_at (index))"),
-    ("string::slice", "RuntimeResult :: Return (& s [start .. end])"),
-    ("string::from_utf8", "GcStr :: from_utf8 (array . get_array () ,) ?"),
-    ("string::char_at", "s [index ..] . chars () . next ()"),
-    ("st_string::len", "buf . 0 . lock () . unwrap () . len ()"),
-    ("st_string::slice", "string :: slice (& buf . 0 . lock () . unwrap () , start , end) . map (| s | s . to_string ())"),
-    ("st_string::pop", "buf . 0 . lock () . unwrap () . pop ()"),
-    ("st_string::push_str", "buf . 0 . lock () . unwrap () . push_str (s)"),
-    ("parse", "s . parse () . map_err (| _ | ())"),
-    ("show_int", "format ! (\"{}\" , i)"),
-    ("show_float", "format ! (\"{}\" , f)"),
-    ("show_char", "format ! (\"{:?}\" , c)"),
-    ("show_byte", "format ! (\"{}\" , c)"),
-    ("error", "Status :: Error"),
-    ("discriminant_value", "ValueRef :: Data (data) => data . tag () , _ => 0 ,"),
+/// Local callee -> (variant tag, fragment its body must contain): the operation modelled in
+/// Lib/Prims.v.  The first matching variant wins; a non-empty tag is appended to the emitted callee
+/// text as `@tag`.  A local callee that is not listed is still emitted (the Coq `coverage` theorem
+/// then fails for it); a listed one whose body matches no variant is a translator failure.
+const CORE: &[(&str, &str, &str)] = &[
+    ("array::len", "", "array . len () as VmInt"),
+    ("array::index", "", "match array . get (index) { Some (value) => RuntimeResult :: Return (value) , None => RuntimeResult :: Panic"),
+    ("array::slice", "", ". skip (self . start) . take (self . end - self . start)"),
+    ("array::append", "", "self . lhs . iter () . chain (self . rhs . iter ())"),
+    ("int::rem", "", "RuntimeResult :: Return (dividend % divisor)"),
+    ("int::rem", "checked", "match dividend . checked_rem (divisor) { Some (value) => RuntimeResult :: Return (value) , None => RuntimeResult :: Panic"),
+    ("int::rem_euclid", "", "RuntimeResult :: Return (dividend . rem_euclid (divisor))"),
+    ("int::rem_euclid", "checked", "match dividend . checked_rem_euclid (divisor) { Some (value) => RuntimeResult :: Return (value) , None => RuntimeResult :: Panic"),
+    ("int::wrapping_rem", "", "RuntimeResult :: Return (dividend . wrapping_rem (divisor))"),
+    ("int::wrapping_rem_euclid", "", "RuntimeResult :: Return (dividend . wrapping_rem_euclid (divisor))"),
+    ("int::overflowing_rem", "", "RuntimeResult :: Return (dividend . overflowing_rem (divisor))"),
+    ("int::overflowing_rem_euclid", "", "RuntimeResult :: Return (dividend . overflowing_rem_euclid (divisor))"),
+    ("string::append", "", ". chain (self . rhs . as_bytes ())"),
+    ("string::append_char", "", "append (lhs , rhs . encode_utf8 (& mut [0 ; 4]))"),
+    ("string::from_char", "", "append_char (WithVM { vm : c . vm , value : \"\" , } , c . value ,)"),
+    ("string::split_at", "", "RuntimeResult :: Return (s . split_at (index))"),
+    ("string::slice", "", "RuntimeResult :: Return (& s [start .. end])"),
+    ("string::from_utf8", "", "GcStr :: from_utf8 (array . get_array () ,) ?"),
+    ("string::char_at", "", "s [index ..] . chars () . next ()"),
+    ("st_string::len", "", "buf . 0 . lock () . unwrap () . len ()"),
+    ("st_string::slice", "", "string :: slice (& buf . 0 . lock () . unwrap () , start , end) . map (| s | s . to_string ())"),
+    ("st_string::pop", "", "buf . 0 . lock () . unwrap () . pop ()"),
+    ("st_string::push_str", "", "buf . 0 . lock () . unwrap () . push_str (s)"),
+    ("parse", "", "s . parse () . map_err (| _ | ())"),
+    ("show_int", "", "format ! (\"{}\" , i)"),
+    ("show_float", "", "format ! (\"{}\" , f)"),
+    ("show_char", "", "format ! (\"{:?}\" , c)"),
+    ("show_byte", "", "format ! (\"{}\" , c)"),
+    ("error", "", "Status :: Error"),
+    ("discriminant_value", "", "ValueRef :: Data (data) => data . tag () , _ => 0 ,"),
     // callees introduced by the C06 fix patches (fixes/C06-*.patch)
-    ("int::from_str_radix", "VmInt :: from_str_radix (src , radix) . map_err (| _ | ())"),
-    ("int::shl", "RuntimeResult :: Return (lhs << rhs)"),
-    ("int::arithmetic_shr", "RuntimeResult :: Return (lhs >> rhs)"),
-    ("int::logical_shr", "RuntimeResult :: Return (((lhs as u64) >> rhs) as VmInt)"),
-    ("int::pow", "match base . checked_pow (exp) { Some (value) => RuntimeResult :: Return (value) , None => RuntimeResult :: Panic"),
-    ("int::abs", "match value . checked_abs () { Some (value) => RuntimeResult :: Return (value) , None => RuntimeResult :: Panic"),
-    ("int::wrapping_div", "RuntimeResult :: Return (dividend . wrapping_div (divisor))"),
-    ("int::overflowing_div", "RuntimeResult :: Return (dividend . overflowing_div (divisor))"),
-    ("byte::shl", "RuntimeResult :: Return (lhs << rhs)"),
-    ("byte::shr", "RuntimeResult :: Return (lhs >> rhs)"),
-    ("byte::pow", "match base . checked_pow (exp) { Some (value) => RuntimeResult :: Return (value) , None => RuntimeResult :: Panic"),
-    ("byte::wrapping_div", "RuntimeResult :: Return (dividend . wrapping_div (divisor))"),
-    ("byte::overflowing_div", "RuntimeResult :: Return (dividend . overflowing_div (divisor))"),
-    ("char::is_digit", "RuntimeResult :: Return (c . is_digit (radix))"),
-    ("char::to_digit", "RuntimeResult :: Return (c . to_digit (radix))"),
+    ("int::from_str_radix", "", "RuntimeResult :: Return (VmInt :: from_str_radix (src , radix) . map_err (| _ | ()))"),
+    ("int::shl", "", "RuntimeResult :: Return (std :: int :: shl (lhs , rhs))"),
+    ("int::arithmetic_shr", "", "RuntimeResult :: Return (std :: int :: arithmetic_shr (lhs , rhs))"),
+    ("int::logical_shr", "", "RuntimeResult :: Return (std :: int :: logical_shr (lhs as u64 , rhs as u64) as VmInt)"),
+    ("int::pow", "", "match base . checked_pow (exp) { Some (value) => RuntimeResult :: Return (value) , None => RuntimeResult :: Panic"),
+    ("int::abs", "", "match value . checked_abs () { Some (value) => RuntimeResult :: Return (value) , None => RuntimeResult :: Panic"),
+    ("int::wrapping_div", "", "RuntimeResult :: Return (dividend . wrapping_div (divisor))"),
+    ("int::overflowing_div", "", "RuntimeResult :: Return (dividend . overflowing_div (divisor))"),
+    ("byte::shl", "", "RuntimeResult :: Return (std :: byte :: shl (lhs , rhs))"),
+    ("byte::shr", "", "RuntimeResult :: Return (std :: byte :: shr (lhs , rhs))"),
+    ("byte::pow", "", "match base . checked_pow (exp) { Some (value) => RuntimeResult :: Return (value) , None => RuntimeResult :: Panic"),
+    ("byte::wrapping_div", "", "RuntimeResult :: Return (dividend . wrapping_div (divisor))"),
+    ("byte::overflowing_div", "", "RuntimeResult :: Return (dividend . overflowing_div (divisor))"),
+    ("character::is_digit", "", "RuntimeResult :: Return (c . is_digit (radix))"),
+    ("character::to_digit", "", "RuntimeResult :: Return (c . to_digit (radix))"),
 ];
 
 fn nows(s: &str) -> String {
@@ -226,6 +230,7 @@ fn resolve_local(callee: &str) -> Option<String> {
 fn add_primitive(cx: &mut Ctx, name: &str, arity: u32, callee_expr: &syn::Expr) -> Result<(), GenError> {
     let callee = nows(&toks(callee_expr));
     let mut guards = vec![];
+    let mut tagged: Option<String> = None;
     if let syn::Expr::Closure(c) = callee_expr {
         guards = guards_of(c, |v| v.visit_expr_closure(c));
     } else if let Some(local) = resolve_local(&callee) {
@@ -239,15 +244,24 @@ fn add_primitive(cx: &mut Ctx, name: &str, arity: u32, callee_expr: &syn::Expr) 
                         guards.extend(g.guards.iter().cloned());
                     }
                 }
-                if let Some((_, frag)) = CORE.iter().find(|(k, _)| *k == local) {
-                    if !nows(&f.text).contains(&nows(frag)) {
-                        return err(ITEM, format!("local callee `{}` no longer contains `{}` (re-model it in Lib/Prims.v)", local, frag));
+                let variants: Vec<&(&str, &str, &str)> = CORE.iter().filter(|(k, _, _)| *k == local).collect();
+                if !variants.is_empty() {
+                    match variants.iter().find(|(_, _, frag)| body.contains(&nows(frag))) {
+                        Some((_, tag, _)) => {
+                            if !tag.is_empty() {
+                                tagged = Some(format!("{}@{}", callee, tag));
+                            }
+                        }
+                        None => {
+                            return err(ITEM, format!("local callee `{}` no longer contains the modelled operation `{}` (re-model it in Lib/Prims.v)", local, variants[0].2));
+                        }
                     }
                 }
             }
             None => return err(ITEM, format!("callee `{}` of `{}.{}` looks local but no such fn is defined in primitives.rs", callee, cx.module, name)),
         }
     }
+    let callee = tagged.unwrap_or(callee);
     cx.table.entries.push(Entry { module: cx.module.to_string(), name: name.to_string(), arity, callee, guards });
     Ok(())
 }
